@@ -57,7 +57,7 @@ const PARAMS: [Option<&str>; 11] = [
 	Some("[1]"),
 	Some("[ 18446744073709551615 , 1 ]"),
 ];
-const VERSIONS: [Option<&str>; 5] = [Some("\"2.0\""), Some("\"1.0\""), Some("2.0"), Some("null"), None];
+const VERSIONS: [Option<&str>; 6] = [Some("\"2.0\""), Some("\"1.0\""), Some("2.0"), Some("null"), None, Some("\"2\\u002e0\"")];
 const EXTRAS: [&str; 5] = ["", "\"unknown\":{\"x\":1}", "\"id\":9", "\"method\":\"fail\"", "\"jsonrpc\":\"2.0\""];
 
 fn build(order: &[usize], id: Option<&str>, method: &str, params: Option<&str>, ver: Option<&str>, extra: &str, ws: usize) -> Vec<u8> {
@@ -341,7 +341,7 @@ pub fn hex(b: &[u8]) -> String {
 pub fn check(rep: &Reporter) {
 	let thorough = rep.tier.thorough();
 	rep.set_rule(
-		"messages = REQ (21 id forms × 12 methods incl. every handler kind, unknown, empty, escaped spelling, non-string × 11 params × 5 versions; plus all 24 member orders × 5 extra members incl. duplicates × {0,1,127} leading whitespace bytes on a sub-product) ∪ TOK (all token strings of length ≤5 (thorough 6) over 14 tokens starting with { or [) ∪ MUT (delete/duplicate/replace-by-15-bytes/truncate at every position of 5 (thorough 12) base requests) ∪ BYTES (all strings of ≤2 bytes (quick: a dense subset of the 2-byte ones), every single-byte replacement in 2 (thorough 6) bases); each distinct byte string is sent over HTTP and over a fresh WebSocket connection followed by a sentinel call; all frames until close are collected; the REQ product in canonical order (quick: version 2.0 only) and TOK ≤ 3 additionally travel through Server::start over loopback TCP (raw HTTP/1.1 keep-alive connection resp. soketto client), bare and behind the built-in RPC logger middleware (quick: the logger for TOK and the params-less REQ messages), judged by the same classifier. Oracle = independent classifier on a duplicate-preserving JSON tree. Distinct by byte string; every case is non-trivial (it is executed on both transports).",
+		"messages = REQ (21 id forms × 12 methods incl. every handler kind, unknown, empty, escaped spelling, non-string × 11 params × 6 versions (incl. an escaped spelling of 2.0); plus all 24 member orders × 5 extra members incl. duplicates × {0,1,127} leading whitespace bytes on a sub-product) ∪ TOK (all token strings of length ≤5 (thorough 6) over 14 tokens starting with { or [) ∪ MUT (delete/duplicate/replace-by-15-bytes/truncate at every position of 5 (thorough 12) base requests) ∪ BYTES (all strings of ≤2 bytes (quick: a dense subset of the 2-byte ones), every single-byte replacement in 2 (thorough 6) bases); each distinct byte string is sent over HTTP and over a fresh WebSocket connection followed by a sentinel call; all frames until close are collected; the REQ product in canonical order (quick: version 2.0 only) and TOK ≤ 3 additionally travel through Server::start over loopback TCP (raw HTTP/1.1 keep-alive connection resp. soketto client), bare and behind the built-in RPC logger middleware (quick: the logger for TOK and the params-less REQ messages), judged by the same classifier. Oracle = independent classifier on a duplicate-preserving JSON tree. Distinct by byte string; every case is non-trivial (it is executed on both transports).",
 	);
 	rep.assume("`null` params are 'no params'; ASCII form feed counts as leading whitespace (the library's sniffing window uses is_ascii_whitespace)");
 	let cases = cases(thorough);
